@@ -124,4 +124,17 @@ PROPS = {
         quick=dict(checks=5, timeout=900),
         thorough=dict(checks=12, shards=16, timeout=3000),
     ),
+    "C12": dict(
+        run="^TestC12$",
+        level="exploration",
+        rule=("histories of 8-40 (thorough: 80) create / delete / get / list / re-create / concurrent-create operations on topics, subscriptions and snapshots in 8 projects whose names differ by case, "
+              "are prefixes of one another or contain LIKE wildcards and the LIKE escape character (p, P, p_, p%, pq, p.q, p\\, e-acute), short names likewise, page sizes 1,2,3,5,100,0,-1; "
+              "oracle: model = set of live names per kind: exact status codes (AlreadyExists / NotFound / OK), Get OK iff live with the current incarnation's settings, every List walked to the "
+              "end returns the project's live set exactly once each and nothing foreign, 2-8 racing creates of one name have exactly one winner, a re-created subscription inherits no backlog, "
+              "settings or ack ids and a re-created topic does not feed the old topic's subscriptions; non-trivial = live resources in >=2 related projects and a list walked over >1 page; "
+              "distinct by hash of the operation list"),
+        assumptions=["SQLite backend only (unique-violation mapping under a true race is PostgreSQL-only)", "virtual clock"],
+        quick=dict(checks=300, timeout=900),
+        thorough=dict(checks=1200, shards=16, timeout=3000),
+    ),
 }
